@@ -94,6 +94,8 @@ impl Col {
         *self.stats.entry("conversion / reclaim attempts").or_insert(0) += s.exclusive_attempts as u64;
         *self.stats.entry("buffer reads checked").or_insert(0) += s.reads as u64;
         *self.stats.entry("exclusive writes performed").or_insert(0) += s.writes as u64;
+        *self.stats.entry("loads that had more than one value to read (C11 coherence)").or_insert(0) += s.loads_with_a_choice as u64;
+        *self.stats.entry("loads that were given an older value").or_insert(0) += s.stale_loads as u64;
         if out.report.aborted {
             self.aborted += 1;
         }
@@ -118,7 +120,7 @@ impl Col {
             trace.push(format!("!! {} [{}] {}", x.prop, x.kind, x.detail));
         }
         self.viols.push(json!({"property": self.prop, "oracle": v.0, "detail": v.1, "op": p.describe(), "found_by": how, "profile": "conc",
-            "replay": {"engine": "conc", "program": p.to_json(), "schedule": schedule, "max_preempt": max_preempt}, "trace": trace}));
+            "replay": {"engine": "conc", "program": p.to_json(), "schedule": schedule, "max_preempt": max_preempt, "max_stale": portable_atomic::rt::MAX_STALE.load(std::sync::atomic::Ordering::Relaxed)}, "trace": trace}));
     }
 
     /// explore the schedules of one program; returns the failing schedule if the property is violated
@@ -326,11 +328,21 @@ pub fn main() -> i32 {
         }
     }));
     let args = Args::parse();
+    if args.u64("litmus", 0) == 1 {
+        let f = crate::litmus();
+        for x in &f {
+            println!("LITMUS-FAILED {}", x);
+        }
+        println!("litmus: {} expectation(s) failed", f.len());
+        return if f.is_empty() { 0 } else { 2 };
+    }
     let prop = args.str("prop", "C05");
     let seed = args.u64("seed", 1);
     let worker = args.u64("worker", 0);
     let workers = args.u64("workers", 1).max(1);
     let cap = args.u64("cap", 3000);
+    // loads that may return an older value than the newest one (C11 allows it), per execution
+    portable_atomic::rt::MAX_STALE.store(args.u64("max-stale", 1) as u32, std::sync::atomic::Ordering::Relaxed);
     let mut col = Col { prop: prop.clone(), execs: 0, programs: 0, exhaustive_programs: 0, capped_programs: 0, nontriv: HashSet::new(), aborted: 0, viols: vec![], samples: vec![], stats: BTreeMap::new(), per_repr: [0; 7] };
 
     if let Some(path) = args.kv.get("replay") {
@@ -338,6 +350,7 @@ pub fn main() -> i32 {
         let Some(p) = Program::from_json(&v["program"]) else { return 2 };
         let sched: Vec<u8> = v["schedule"].as_array().map(|a| a.iter().map(|x| x.as_u64().unwrap_or(0) as u8).collect()).unwrap_or_default();
         let mp = v["max_preempt"].as_u64().unwrap_or(u32::MAX as u64) as u32;
+        portable_atomic::rt::MAX_STALE.store(v["max_stale"].as_u64().unwrap_or(0) as u32, std::sync::atomic::Ordering::Relaxed);
         let out = execute(&p, sched.clone(), mp, true);
         col.note(&p, &out);
         let mut trace = vec![p.describe()];
@@ -429,6 +442,15 @@ pub fn main() -> i32 {
             }
         }
     }
+    // every worker re-checks the memory-model layer itself (which values loads may return, which edges acquire loads gain)
+    let keep = portable_atomic::rt::MAX_STALE.load(std::sync::atomic::Ordering::Relaxed);
+    let lit = crate::litmus();
+    portable_atomic::rt::MAX_STALE.store(keep, std::sync::atomic::Ordering::Relaxed);
+    for x in &lit {
+        eprintln!("LITMUS-FAILED {}", x);
+    }
+    col.stats.insert("memory-model litmus expectations failed (must be 0)", lit.len() as u64);
+    col.stats.insert("memory-model litmus runs", 1);
     let mut reprs = serde_json::Map::new();
     for (i, n) in crate::REPR_NAMES.iter().enumerate() {
         reprs.insert(n.to_string(), json!(col.per_repr[i]));
